@@ -103,3 +103,28 @@ theorem flattenAnonPointer_plans (fc : Facts) (x : Ext) (o : Opts) (ops : List (
       exact Or.inl rfl
 
 end Proofs.StalePlans
+
+namespace Proofs.StalePlans
+open Flatten OutcomeM
+
+/-- the loop of `namePointers` returns the state of a pass that has skipped nothing -/
+theorem namePointersLoop_last_pass (fc : Facts) (x : Ext) (o : Opts) : ∀ (fuel : Nat) (s s' : St),
+    namePointersLoop fc x o fuel s = .ok s' → ∃ s0, namePointersPass fc x o s0 = .ok (s', false) := by
+  intro fuel
+  induction fuel with
+  | zero => intro s s' h; simp [namePointersLoop] at h
+  | succ n ih =>
+    intro s s' h
+    unfold namePointersLoop at h
+    obtain ⟨⟨s1, rp⟩, h1, h⟩ := bind_eq_ok.1 h
+    dsimp only at h
+    split at h
+    · exact ih _ _ h
+    · rename_i hrp
+      simp only [pure_eq_ok] at h
+      subst h
+      have : rp = false := by simpa using hrp
+      subst this
+      exact ⟨s, h1⟩
+
+end Proofs.StalePlans
